@@ -1,7 +1,7 @@
 (* C16 — Cert exchange serves exact store slices; pollers store only verified certs.
    server_limit / server_guard / server_end are GENERATED from certexchange/server.go. *)
 From Coq Require Import ZArith List Bool.
-From F3 Require Import GoInt ListX ServerGen Exchange ExchangeProofs.
+From F3 Require Import GoInt ListX ServerGen Exchange ExchangeProofs PollLocal.
 Import ListNotations.
 Open Scope Z_scope.
 
@@ -56,3 +56,18 @@ Theorem c16_poller_illegal_on_invalid :
     snd (fst (poll cert tbl validate s (Some (pending, cs) :: rest) st rc)) = PollIllegal.
 Proof. exact poller_illegal_on_invalid. Qed.
 Print Assumptions c16_poller_illegal_on_invalid.
+
+(* The per-certificate loop next to the node's own progress: certificates stored locally (by GPBFT) while the request is
+   in flight or between two certificates of the response.  Whatever happens locally, an honest response is never
+   classified as illegal, the cursor advances exactly by the number of certificates in it, all of them count as received,
+   and the store ends at or beyond the end of that prefix. *)
+Theorem c16_poll_with_local_progress : forall its s, ls_illegal s = false -> honest_from (ls_next s) its ->
+  let s' := PollLocal.lrun s its in
+  ls_illegal s' = false /\ ls_next s' = ls_next s + ncerts its /\ ls_received s' = ls_received s + ncerts its /\
+  ls_latest s <= ls_latest s' /\ (0 < ncerts its -> ls_next s' - 1 <= ls_latest s').
+Proof. exact honest_response_advances. Qed.
+Print Assumptions c16_poll_with_local_progress.
+
+Theorem c16_poll_illegal_is_final : forall its s, ls_illegal s = true -> PollLocal.lrun s its = s.
+Proof. exact illegal_is_final. Qed.
+Print Assumptions c16_poll_illegal_is_final.
